@@ -561,9 +561,11 @@ def _check_host(chk: "RelCheck", item: dict, backend: str) -> None:
             for bp in ormbases.base_paths(backend, model, base):
                 rel = REL.get((chk.root_table, bp[0]))
                 bpaths.add((bp, rel[1]))
-            expected: Dict[str, int] = {chk.root_table: 1}
-            for _, tb in paths | bpaths:
-                expected[tb] = expected.get(tb, 0) + 1
+            expected: Dict[str, int] = dict(_table_counts(host["tree"][1]))      # what the host query itself joins
+            expected.setdefault(chk.root_table, 1)
+            for pth, tb in paths:
+                if (pth, tb) not in bpaths:                                    # plus one join per new navigated path
+                    expected[tb] = expected.get(tb, 0) + 1
             counts = _table_counts(p["tree"][1])
             extra = {t: (n, expected.get(t, 0)) for t, n in counts.items() if n > expected.get(t, 0)}
             cross = [j[2] for j in p["tree"][1]["joins"] if j[1] == "cross"]
